@@ -160,7 +160,43 @@ def _fit_stage(est, kind, t, X, layout="C", smooth=None):
         out["V"] = np.asarray(est._eigenvectors, dtype=float).tolist()
         with quiet():
             out["gram0"] = np.asarray(dense([t], X).inner_product(noise_variance=0), dtype=float).tolist()
+    # read-only-looking calls on the fitted estimator (scores by every method, dense and irregular input,
+    # reconstruction), then every fitted attribute is read AGAIN: it must be unchanged and still satisfy the relations
+    calls = []
+    with quiet():
+        for name, f in _readonly_calls(est, t, X):
+            try:
+                f()
+                calls.append(name)
+            except Exception as e:  # noqa: BLE001
+                calls.append(name + ":" + err_class(e))
+        out["after"] = dict(calls=calls, vals=[float(x) for x in est.eigenvalues],
+                            phi=np.asarray(est.eigenfunctions.values, dtype=float).tolist(),
+                            cov=np.asarray(est.covariance.values[0], dtype=float).tolist(),
+                            noise=float(est._noise_variance))
     return out
+
+
+def _readonly_calls(est, t, X):
+    from FDApy.representation.argvals import DenseArgvals, IrregularArgvals
+    from FDApy.representation.functional_data import IrregularFunctionalData
+    from FDApy.representation.values import IrregularValues
+
+    tf = np.array(fl(t))
+    other = lambda: dense([t], X[::-1] * 0.5 + 1.0)  # noqa: E731
+
+    def irregular():
+        n = len(X)
+        return IrregularFunctionalData(IrregularArgvals({i: DenseArgvals({"input_dim_0": tf}) for i in range(n)}),
+                                       IrregularValues({i: np.array(X[i], dtype=float) for i in range(n)}))
+
+    yield "transform(None,NumInt)", lambda: est.transform(None, method="NumInt")
+    yield "transform(None,PACE)", lambda: est.transform(None, method="PACE")
+    yield "transform(data,PACE)", lambda: est.transform(other(), method="PACE", method_smoothing=None)
+    yield "transform(data,NumInt)", lambda: est.transform(other(), method="NumInt", method_smoothing=None)
+    if len(X) <= 12 and len(tf) <= 20:
+        yield "transform(irregular,PACE)", lambda: est.transform(irregular(), method="PACE", method_smoothing="LP")
+    yield "inverse_transform", lambda: est.inverse_transform(np.ones((2, len(est.eigenvalues))))
 
 
 def run_impl(case):
@@ -330,6 +366,17 @@ def oracle(case, impl):
     vs = []
     for label, t, X, st in _stages(case, impl):
         vs += _oracle_stage(case, entry, label, t, X, st)
+        aft = st.get("after") if isinstance(st, dict) else None
+        if aft and "error" not in st:
+            changed = [k for k in ("vals", "phi", "cov", "noise")
+                       if not np.array_equal(np.array(st[k], dtype=float), np.array(aft[k], dtype=float), equal_nan=True)]
+            if changed:
+                names = {"vals": "eigenvalues", "phi": "eigenfunctions", "cov": "covariance", "noise": "noise variance"}
+                vs.append(dict(clause="readonly_mutates", entry=entry, causes=[],
+                               msg=f"{label}after the read-only calls {aft['calls']} the fitted {', '.join(names[k] for k in changed)} changed"))
+                # … and the defining relations are evaluated again on the estimator as it is now
+                st2 = dict(st, **{k: aft[k] for k in ("vals", "phi", "cov", "noise")})
+                vs += _oracle_stage(case, entry, label + "after transform()/inverse_transform(): ", t, X, st2)
     # history: the refit of the same object must be what a fresh estimator reports on the same data
     if isinstance(impl.get("B"), dict) and isinstance(impl.get("fresh"), dict):
         b, f = impl["B"], impl["fresh"]
